@@ -18,5 +18,27 @@ func propSpecs() map[string]*PropSpec {
 		Outside: []string{"sources longer than the bound", "BasicLit.Float64 and Uint64 of float literals (floating point)", "string values containing invalid UTF-8 together with an escape (don't-care)", "extent of the error token for '!' followed by another character (don't-care)"},
 		Stubs:   []string{"unicode.IsSpace -> models.IsSpace (validated against the real table)", "utf8 decode/encode: engine model of the Go specification", "strings.{TrimLeft,ReplaceAll,ContainsAny} -> models", "strconv.{ParseUint,FormatUint} -> models", "fmt.Sprintf: error texts opaque"},
 	})
+	add(&PropSpec{
+		ID: "C12", Title: "scanning, parsing and compiling are total", OwnsPanic: true,
+		Quick: []RunSpec{rs("H_C12", 1, 0), rs("H_C12", 2, 0), rs("H_C12", 3, 5), rs("H_C12", 3, 1),
+			rs("H_C12tok", 1, 2), rs("H_C12tok", 2, 2), rs("H_C12tok", 3, 2), rs("H_C12tok", 4, 2), rs("H_C12tok", 5, 4), rs("H_C12tok", 6, 4)},
+		Thorough: []RunSpec{rs("H_C12", 1, 0), rs("H_C12", 2, 0), rs("H_C12", 3, 0), rs("H_C12", 5, 5), rs("H_C12", 5, 1), rs("H_C12", 5, 2), rs("H_C12", 5, 3),
+			rs("H_C12tok", 1, 0), rs("H_C12tok", 2, 0), rs("H_C12tok", 3, 0), rs("H_C12tok", 4, 2), rs("H_C12tok", 5, 2), rs("H_C12tok", 6, 4), rs("H_C12tok", 7, 4)},
+		Covers: []string{"has-token", "parsed", "parse-error", "compiled", "compile-error", "walked", "has-semicolon-token"},
+		Bounds: map[string]string{"quick": "all byte strings of length <= 2, length <= 3 over two focused alphabets; all token sequences of length <= 4 over the 55-lexeme vocabulary and <= 6 over the 33-lexeme vocabulary; 5 parameter maps",
+			"thorough": "all byte strings of length <= 3, <= 5 over focused alphabets; all token sequences <= 3 over the full vocabulary, <= 5 over 55 lexemes, <= 7 over 33 lexemes"},
+		Outside: []string{"inputs beyond the bounds", "the wall-clock clause (within seconds for KiB inputs): a complexity claim, not decided by bounded symbolic execution", "step budget per path 300000 SSA instructions: exhaustion is replayed natively under a 5 s watchdog"},
+		Stubs:   []string{"parser.Scan summarised on token-slot sources from tables derived on this run from the real Scan (one-token locality validated on all lexeme pairs)"},
+	})
+	add(&PropSpec{
+		ID: "C15", Title: "statement splitting agrees with the lexer and loses nothing",
+		Quick:    []RunSpec{rs("H_C15", 0, 0), rs("H_C15", 1, 0), rs("H_C15", 2, 0), rs("H_C15", 4, 5)},
+		Thorough: []RunSpec{rs("H_C15", 0, 0), rs("H_C15", 1, 0), rs("H_C15", 2, 0), rs("H_C15", 3, 0), rs("H_C15", 6, 5)},
+		Covers:   []string{"has-semicolon-token", "semicolon-inside-token-or-comment", "parsed", "two-statements"},
+		Bounds: map[string]string{"quick": "all byte strings of length <= 2 (full byte range); length <= 4 over the alphabet ; ' \" ` / \\ newline a 1 = space",
+			"thorough": "all byte strings of length <= 3 (full byte range); length <= 6 over the splitting alphabet"},
+		Outside: []string{"sources longer than the bound", "the command-line consumer (C16)"},
+		Stubs:   []string{"unicode.IsSpace -> models.IsSpace", "utf8 decode: engine model", "strings.{TrimLeft,ReplaceAll} -> models"},
+	})
 	return m
 }
